@@ -13,6 +13,7 @@ UNITS = {
     'video_timing': {},
     'codecache': {},
     'disasm': {},
+    'loader': {},
 }
 
 PROPS = {
@@ -52,11 +53,11 @@ PROPS['C10'] = {
                     'cartridge RAM enable (0x0000-0x1FFF) is not part of the property and not modelled'],
 }
 PROPS['C11'] = {
-    'level': 'proof', 'verus': ['bus', 'cart'], 'kani': ['misc:header'], 'trusted_base': _BUS_TB, 'design_ref': 'DESIGN.md 5.11',
+    'level': 'proof', 'verus': ['bus', 'cart', 'loader'], 'kani': ['misc:header'], 'trusted_base': _BUS_TB, 'design_ref': 'DESIGN.md 5.11',
     'technique': 'Verus built-in obligations (index in bounds, arithmetic overflow, unreachable panics) on the bus functions under the invariant mem_wf preserved by every write',
     'level_text': 'Every index, arithmetic operation and panic site in the four bus helpers, the bank helpers, IO::get_byte/set_byte and the MBC write handlers is proved safe for every address, value and reachable controller state (invariant CartState::inv + mem_wf preserved by every bus write, for any ROM of 1..512 banks and any cartridge RAM size up to 128 KiB).',
     'level_note': 'Process-level abort semantics are not modelled: a reachable panic is already the violation. The LCD pixel pipeline (run_clock_cycles) is outside the bus functions this property quantifies over.',
-    'assumptions': ['overflow checks on (Verus checks every + - * on machine integers)', 'mem_wf at construction: with_rom proved here, with_rom_file in unit loader'],
+    'assumptions': ['overflow checks on (Verus checks every + - * on machine integers)'],
 }
 PROPS['C12'] = {
     'level': 'proof', 'verus': ['cart', 'bus'], 'trusted_base': _BUS_TB, 'design_ref': 'DESIGN.md 5.12',
@@ -144,12 +145,12 @@ PROPS['C02'] = {
 
 _CC_TB = _CORE_TB + ['vstd specification of std::collections::BTreeMap (group_btree_axioms)',
                      'rule R9 (closure parameter types / ensures added by ordinal) and R10 (listed textual rewrites: the MemoryAreas pointer captured by the Emitter becomes an explicit parameter of CodeCache::call)',
-                     'CodeCache::translate_code_block and CodeCache::call are external_body with assumed contracts (what C01/C02 establish per instruction); ExecutableMemory is opaque; is_translation is uninterpreted']
+                     'CodeCache::call is external_body with an assumed contract (what C01/C02 establish per instruction); the block loop of translate_code_block is proved up to the assumed lemma axiom_emitted_block_is_translation (emitted code of a one-region block is a translation; executable memory is append-only) and three listed assume()s (block ends before 0x8000; the 8 MiB cache has room - the code has no check); Emitter / ExecutableMemory are opaque; is_translation is uninterpreted']
 PROPS['C03'] = {
     'level': 'proof', 'verus': ['codecache'], 'trusted_base': _CC_TB, 'design_ref': 'DESIGN.md 5.3',
     'technique': 'Verus contracts on cache/blocks.rs (BTreeMap view keyed by (bank, address)), CodeCache lookup/insert, and the jit head of Core::run_code_block: lookups and insertions require tags fresh w.r.t. the mapped bank; invariant lemmas',
     'level_text': 'CacheRegion::{new,insert,get,set_bank}, CachedBlocks::{new,set_rom_bank,get_region,get_region_mut}, MemoryLocation::{new,as_u32}, CodeCache::{set_rom_bank,get_address_for_ip,insert_code_block} are proved against a Map<(bank,address),CodeBlock> view; Core::run_code_block (feature jit) is proved to establish tag_fresh (rom_low tag 0, rom_high tag = the bank currently visible, i.e. the controller bank reduced to the ROM size) before every lookup/translation, and to call only an offset that is a translation of the bytes currently mapped at PC; lemma_hit_is_current / lemma_insert_keeps_inv show that the invariant "every entry is a translation of its own (bank, address)" survives any interleaving of insertions and bank switches because ROM is immutable (C10 frame).',
-    'level_note': 'What "is a translation of" means operationally is C01; here it is an uninterpreted predicate established by the assumed contract of translate_code_block and consumed by the assumed contract of call. The block loop of translate_code_block (incl. the stop at 0x4000) is not under contract.',
+    'level_note': 'What "is a translation of" means operationally is C01; here it is an uninterpreted predicate established by the assumed contract of translate_code_block and consumed by the assumed contract of call. translate_code_block is under contract: its loop invariant proves that the guest bytes of a block come from ONE region (fixed bank, or the currently mapped switchable bank), that the block is filed under (current tag, ip) and starts at the old write cursor.',
     'assumptions': ['executable memory is append-only: earlier translations stay valid when new code is emitted (part of the assumed translate_code_block contract)'],
 }
 PROPS['C04'] = {
@@ -169,11 +170,11 @@ PROPS['C18'] = {
     'assumptions': ['host write() of a 1-byte buffer writes it completely'],
 }
 PROPS['C19'] = {
-    'level': 'proof', 'kani': ['misc:header'], 'design_ref': 'DESIGN.md 5.19',
+    'level': 'proof', 'kani': ['misc:header'], 'verus': ['loader'], 'design_ref': 'DESIGN.md 5.19',
     'trusted_base': ['Kani 0.68 + CBMC 6.11', 'the repository files are compiled unmodified via #[path] includes', 'header tables / checksum definition written from the cartridge header specification (kani/src/misc.rs)'],
-    'technique': 'Kani full-domain harnesses on the real repr(C, packed) Header (all 80 bytes symbolic; fixed 25-iteration loop fully unwound with unwinding assertion): checksum acceptance, size tables, controller construction',
+    'technique': 'Kani full-domain harnesses on the real repr(C, packed) Header (checksum, tables, controller construction) + Verus contracts on the loader call chain (load_rom -> from_rom_file -> with_rom_file -> map_rom_file) with a ghost file length',
     'level_text': 'For every 80-byte header: valid_checksum() holds iff the checksum of bytes 0x134-0x14C equals byte 0x14D; get_rom_bank_count / get_rom_size_bytes / get_ram_size_bytes equal the header tables for all 256 codes (and always satisfy the bus invariant mem_wf: C11); create_cart_state returns a fresh controller for every supported type and can only panic ("Unsupported cart type", a controlled termination at load time) for the others.',
-    'level_note': 'NOT under contract: main::load_rom / system::read_header / map_rom_file (file I/O, mmap, String): the rejection of files shorter than 0x150 bytes or than their declared size (fix ba0753d) is not machine-checked here; it was confirmed by reading and by the seeded-change experiments only.',
+    'level_note': 'Verus unit loader: main::load_rom, Core::from_rom_file, MemoryAreas::with_rom_file, system::get_rom_buffer and the Header size/type functions are under contract: map_rom_file (external) REQUIRES file_len >= mapped size, from_rom_file REQUIRES a checksum-valid header and file_len >= the table size, and load_rom is proved to establish both at its call site; with_rom_file is proved to return a well-formed bus (mem_wf) with exactly the table sizes for every header. File I/O (open, seek/read_exact in read_header, metadata, mmap) is assumed by specification; the "Unsupported cart type" panic is treated as the controlled termination the property allows.',
     'assumptions': ['read_header returns Err for files shorter than 0x150 bytes (std read_exact semantics)'],
 }
 PROPS['C20'] = {
